@@ -346,6 +346,18 @@ PROPS = {
               dict(driver="logfmt", args=["--mode", "model", "--maxrecs", "2", "--parts", "8"], quick=18, thorough=144),
               dict(driver="logfmt", args=["--mode", "random", "--scen", "60"], quick=8, thorough=400),
               dict(driver="logfmt", args=["--mode", "enum", "--parts", "16"], quick=18, thorough=288)]),
+    "C17": dict(
+        design=[("MC_RainLock.tla", ["MC_RainLock_small.cfg"], ["MC_RainLock_small.cfg", "MC_RainLock_big.cfg"])],
+        switches=[("Bug_LockAfterRecovery", "MC_RainLock.tla", "MC_RainLock_small.cfg", "OnlyOwnerWrites"),
+                  ("Bug_ReleaseBeforeBgStops", "MC_RainLock.tla", "MC_RainLock_small.cfg", "OnlyOwnerWrites"),
+                  ("Bug_DestroyIgnoresLock", "MC_RainLock.tla", "MC_RainLock_small.cfg", "OnlyOwnerWrites"),
+                  ("Bug_OpenTruncatesOnFailure", "MC_RainLock.tla", "MC_RainLock_small.cfg", "OnlyOwnerWrites"),
+                  ("Bug_UnlinkLockAfterRelease", "MC_RainLock.tla", "MC_RainLock_small.cfg", "OneOwner")],
+        trace=("RainLock_Trace.tla", "RainLock_Trace.cfg"),
+        work=[dict(driver="lockfmt", args=["--rounds", "40", "--scripts", "6", "--gates", "1",
+                                           "--per-file", "2"], quick=8, thorough=0),
+              dict(driver="lockfmt", args=["--rounds", "400", "--scripts", "40", "--gates", "3",
+                                           "--per-file", "1"], quick=0, thorough=48)]),
     "C15": dict(
         design=[("MC_RainCorrupt.tla", ["MC_RainCorrupt.cfg"], ["MC_RainCorrupt.cfg"])],
         switches=[("Bug_NoBlockCrc", "MC_RainCorrupt.tla", "MC_RainCorrupt.cfg", "NoInvention"),
@@ -364,7 +376,7 @@ PROPS = {
 }
 
 PROP_SEED_BASE = {"C01": 1000, "C03": 3000, "C07": 7000, "C10": 10000, "C11": 11000,
-                  "C02": 2000, "C16": 16000, "C08": 8000, "C05": 5000, "C06": 6000, "C09": 9000, "C15": 15000, "C12": 12000}
+                  "C02": 2000, "C16": 16000, "C08": 8000, "C05": 5000, "C06": 6000, "C09": 9000, "C15": 15000, "C12": 12000, "C17": 17000}
 
 
 def check_prop(prop, tier, seed):
@@ -394,6 +406,8 @@ def check_prop(prop, tier, seed):
     groups = {}
     for wi, w in enumerate(conf["work"]):
         runs = w[tier]
+        if runs == 0:
+            continue
         outdir = f"{OUT}/{prop}-{tier}-{wi}"
         seed0 = PROP_SEED_BASE[prop] + wi * 500 + seed * 100000
         r = run_driver_parallel(w["driver"], outdir, seed0, runs, min(nproc, runs), w["args"],
@@ -592,6 +606,7 @@ def replay(path):
             "fault": ("RainCore_Trace.tla", "RainCore_Trace.cfg"),
             "corrupt": ("RainCore_Trace.tla", "RainCore_Trace.cfg"),
             "logfmt": ("RainLog_Trace.tla", "RainLog_Trace.cfg"),
+            "lockfmt": ("RainLock_Trace.tla", "RainLock_Trace.cfg"),
             "sched": CONC_TRACE, "live": CONC_TRACE}[rp["driver"]]
     vruns, rejects, _ = validate_traces(files, spec[0], spec[1], 2, "replay")
     for vr in vruns:
